@@ -27,7 +27,7 @@ def run(seed):
     t0 = time.time()
     res = {'seed': seed, 'property': pid, 'tier': tier}
     try:
-        subprocess.run(['rsync', '-a', '--exclude', '/target', '/repo/', d + '/'], check=True)
+        subprocess.run(['rsync', '-a', '--exclude', '/target', '--exclude', '/.git/worktrees', '/repo/', d + '/'], check=True)
         r = subprocess.run(['git', '-C', d, 'apply', os.path.join(seed, 'patch.diff')], capture_output=True, text=True)
         if r.returncode:
             res['error'] = 'patch does not apply: ' + r.stderr[:300]
